@@ -612,12 +612,12 @@ Section Examples.
     [(sa "pw", NLeaf (sleaf true)); (sa "n", NLeaf (ileaf false)); (sa "pin", NLeaf (ileaf true));
      (sa "sub", NSub false [] [(sa "tok", NLeaf (sleaf true)); (sa "host", NLeaf (sleaf false))]);
      (sa "items", NCfgList false [] item_fs)].
-  Let ex_ops : list (list pstep * cop) :=
-    [([], CSet (sa "pw") (PStr (sa "hunter22")));
-     ([PKey (sa "sub")], CSet (sa "tok") (PStr (sa "abc")));
-     ([PKey (sa "sub")], CSet (sa "host") (PStr (sa "example.org")));
-     ([], CSet (sa "items") (PList 0 [PDict 0 [(PStr (sa "pw"), PStr (sa "s3cret")); (PStr (sa "n"), PInt 1)];
-                                      PDict 0 [(PStr (sa "pw"), PStr (sa ""))]]))].
+  Let ex_ops : list (list pstep * xop leaf) :=
+    [([], XOp (CSet (sa "pw") (PStr (sa "hunter22"))));
+     ([PKey (sa "sub")], XOp (CSet (sa "tok") (PStr (sa "abc"))));
+     ([PKey (sa "sub")], XOp (CSet (sa "host") (PStr (sa "example.org"))));
+     ([], XOp (CSet (sa "items") (PList 0 [PDict 0 [(PStr (sa "pw"), PStr (sa "s3cret")); (PStr (sa "n"), PInt 1)];
+                                           PDict 0 [(PStr (sa "pw"), PStr (sa ""))]])))].
   Let ex_case : cocase := ([], false, [], ex_fs, [], ex_ops).
   Let plain : pyval :=
     PDict 0 [(PStr (sa "pw"), PStr (sa "hunter22")); (PStr (sa "n"), PInt 7); (PStr (sa "pin"), PInt 7);
